@@ -3,7 +3,7 @@ import random
 
 from . import wire_ref as W
 
-SIG_VALUES = {'s': ['a', 'bb', ''], 'i': [0, -5, 7], 'u': [0, 9], 'b': [True, False], 'y': [1, 200], 'x': [2**40, -1], 'd': [1.5, -2.0],
+SIG_VALUES = {'s': ['a', 'bb', ''], 'i': [0, -5, 7], 'u': [0, 9], 'b': [True, False], 'y': [1, 200], 'x': [2**40, -1], 'd': [1.5, -2.0, 3],
               'as': [['x'], []], '(is)': [(1, 'a'), (2, 'b')], 'o': ['/a', '/b/c'], 'ai': [[1, 2], []]}
 BASIC = set('ybnqiuxtdsog')
 PROPS_IFACE = 'org.freedesktop.DBus.Properties'
@@ -162,6 +162,15 @@ def decode_keep_variants(sig, data):
     return ['', out, []], pos
 
 
+def on_wire(sig, v):
+    """what a remote reader sees of a value held by a property declared `sig`: a DOUBLE property holding an integer reads as that double"""
+    if sig == 'd' and isinstance(v, int):
+        return float(v)
+    if sig == 's' and isinstance(v, str):
+        return str(v)
+    return plain(v)
+
+
 def plain(v):
     if isinstance(v, (list, tuple)):
         return [plain(x) for x in v]
@@ -190,6 +199,13 @@ def history(rnd, steps):
                 other = rnd.choice([c for c in (_m.Byte, _m.Int32, _m.UInt32, _m.Int64, _m.UInt64, _m.Int16) if c.dbusSignature != m['sig']])
                 small = abs(int(v)) % 100
                 v = other(small)
+            if m['sig'] == 's' and rnd.random() < 0.3:
+                # text that carries the tag of another string-like type: a STRING property still reads as a string
+                from txdbus import marshal as _m
+                v = rnd.choice([_m.ObjectPath('/a/path'), _m.Signature('a{sv}')])
+            if m['sig'] == 'd' and rnd.random() < 0.2:
+                from txdbus import marshal as _m
+                v = rnd.choice([_m.Int32(4), _m.Byte(2), True])
             del conn.sent[:]
             try:
                 setattr(obj, m['attr'], v)
@@ -202,7 +218,7 @@ def history(rnd, steps):
                     return '%s: assigning %r (emits changes) produced %d PropertiesChanged signals' % (what0, key, len(sigs))
                 from txdbus import message
                 s = message.parseMessage(sigs[0].rawMessage, [])
-                if s.interface != PROPS_IFACE or s.path != '/org/verif/Props' or s.body[0] != key[0] or list(s.body[1]) != [key[1]] or not W.same(s.body[1][key[1]], plain(v)) or s.body[2] != []:
+                if s.interface != PROPS_IFACE or s.path != '/org/verif/Props' or s.body[0] != key[0] or list(s.body[1]) != [key[1]] or not W.same(s.body[1][key[1]], on_wire(m['sig'], v)) or s.body[2] != []:
                     return '%s: PropertiesChanged for %r = %r carried %r' % (what0, key, v, s.body)
                 if m['sig'] in BASIC:
                     vs = changed_variant_sig(s)
@@ -229,7 +245,7 @@ def history(rnd, steps):
                 if kind != 'ok':
                     return '%s: Get%r failed with %s' % (what0, key, r)
                 want = values.get(key)
-                if not W.same(r.body[0], plain(want)):
+                if not W.same(r.body[0], on_wire(m['sig'], want)):
                     return '%s: Get%r = %r, last assigned %r' % (what0, key, r.body[0], want)
                 if want is not None and m['sig'] in BASIC and variant_sig_of(r) != m['sig']:
                     return '%s: Get%r returned a variant of type %r, declared %r' % (what0, key, variant_sig_of(r), m['sig'])
@@ -243,6 +259,8 @@ def history(rnd, steps):
                     continue
                 sig = 's'
             v = rnd.choice(SIG_VALUES[sig])
+            if sig == 'd':
+                v = float(v)            # a remote Set sends a DOUBLE; the integer among the values is for LOCAL assignment to a 'd' property
             p, out = call(handler, conn, 'Set', 'ssv', [key[0], key[1], _typed(sig, v)])
             kind, r, f = reply_of(p, out, '%s: Set%r' % (what0, key))
             if f:
@@ -266,7 +284,7 @@ def history(rnd, steps):
             kind, r, f = reply_of(p, out, '%s: GetAll(%s)' % (what0, iname))
             if f:
                 return f
-            want = {pn: plain(values.get((iname, pn))) for (i, pn), m in model.items() if i == iname and m['access'] != 'write'}
+            want = {pn: on_wire(m['sig'], values.get((iname, pn))) for (i, pn), m in model.items() if i == iname and m['access'] != 'write'}
             if any(v is None for v in want.values()):
                 continue            # an unassigned property has no DBus value (None): encoding fails, outside the claim
             if kind != 'ok':
